@@ -126,14 +126,18 @@ GenC(d, c) ==
     LET sw == IF c.strs # {} THEN 2 ELSE 0
         bw == IF c.bools # {} THEN 3 ELSE 0
         uw == IF Cardinality(c.sts) >= 2 THEN 1 ELSE 0
-        k == IF d = 0 THEN PickW(<< <<5, "cmp">>, <<sw, "scmp">>, <<bw, "bvar">>, <<uw, "ucmp">> >>)
-             ELSE PickW(<< <<5, "cmp">>, <<sw, "scmp">>, <<bw, "bvar">>, <<uw, "ucmp">>, <<1, "and">>, <<1, "or">>, <<1, "not">> >>)
+        nilable == [v \in c.ifs |-> "if"] @@ [v \in c.maps |-> "map"] @@ [v \in c.ptrs |-> "ptr"]
+        nw == IF DOMAIN nilable # {} THEN 2 ELSE 0
+        k == IF d = 0 THEN PickW(<< <<5, "cmp">>, <<sw, "scmp">>, <<bw, "bvar">>, <<uw, "ucmp">>, <<nw, "isnil">> >>)
+             ELSE PickW(<< <<5, "cmp">>, <<sw, "scmp">>, <<bw, "bvar">>, <<uw, "ucmp">>, <<nw, "isnil">>, <<1, "and">>, <<1, "or">>, <<1, "not">> >>)
         c2 == c
     IN
     CASE k = "cmp" -> LET l == GenE(1, c)
                           r == GenE(IF d = 0 THEN 0 ELSE 1, c)
                       IN Cmp(Pick({"lt", "le", "eq", "ne"}), l, r)
       [] k = "bvar" -> [k |-> "bvar", s |-> Pick(c.bools)]
+      [] k = "isnil" -> LET v == Pick(DOMAIN nilable) IN
+                        [k |-> "isnil", s |-> v, sort |-> nilable[v], op |-> Pick({"eq", "ne"}), form |-> Pick({"xn", "nx"})]
       [] k = "ucmp" -> LET l == Pick(c.sts) IN [k |-> "ucmp", op |-> Pick({"eq", "ne"}), s |-> l, from |-> Pick(c.sts \ {l})]
       [] k = "scmp" -> [k |-> "scmp", op |-> Pick({"eq", "ne", "lt"}), l |-> StrVar(c), r |-> StrOp(c)]
       [] k = "and" -> [k |-> "and", l |-> GenC(0, c2), r |-> GenC(0, c2)]
